@@ -207,6 +207,42 @@ Proof.
   destruct HG as (e' & He' & E). destruct (eqe_spec e e'); [subst; assumption|discriminate].
 Qed.
 
+(* ------------------------------------------------------------------ inexact flows *)
+Lemma sumL_mono {A} (g h : A -> Z) l : (forall a, g a <= h a) -> sumL g l <= sumL h l.
+Proof. intros H. induction l as [|a l IH]; cbn [sumL fold_right]; [lia|]. specialize (H a). unfold sumL in IH. lia. Qed.
+
+Lemma leak_mono G (f ub : edge -> Z) : (forall e, f e <= ub e) -> forall p, leak G f p <= leak G ub p.
+Proof.
+  intros H p. induction p as [|v p IH]; [cbn; lia|]. destruct p as [|u r]; [cbn; lia|].
+  change (leak G f (v :: u :: r)) with (sumL (fun x => f (v, x)) (others G v u) + leak G f (u :: r)).
+  change (leak G ub (v :: u :: r)) with (sumL (fun x => ub (v, x)) (others G v u) + leak G ub (u :: r)).
+  pose proof (sumL_mono (fun x => f (v, x)) (fun x => ub (v, x)) (others G v u) (fun x => H (v, x))). lia.
+Qed.
+
+(* the worst-case excess is a lower bound of the excess of every flow inside the intervals *)
+Lemma inexact_excess_le G (lb ub f : edge -> Z) p :
+  (forall e, lb e <= f e) -> (forall e, f e <= ub e) -> inexact_excess G lb ub p <= excess G f p.
+Proof.
+  intros Hl Hu. destruct p as [|u0 [|u1 r]]; cbn [inexact_excess excess]; try lia.
+  pose proof (leak_mono G f ub Hu (u1 :: r)). specialize (Hl (u0, u1)). lia.
+Qed.
+
+(* a path with positive worst-case excess lies in a positive-weight path of every decomposition of every flow f
+   with lb <= f <= ub *)
+Theorem inexact_excess_flow_safe (G : list edge) (lb ub f : edge -> Z) (D : list (list node * Z)) :
+  (forall e, lb e <= f e) -> (forall e, f e <= ub e) ->
+  (forall pw, In pw D -> 0 <= snd pw) ->
+  (forall pw, In pw D -> incl (pairs (fst pw)) G) ->
+  (forall pw x, In pw D -> ~ In (last (fst pw) 0%N, x) G) ->
+  (forall e, In e G -> Wt D (hasb e) = f e) ->
+  forall u0 u1 r, incl (pairs (u0 :: u1 :: r)) G -> 0 < inexact_excess G lb ub (u0 :: u1 :: r) ->
+  exists pw, In pw D /\ 0 < snd pw /\ infix (u0 :: u1 :: r) (fst pw).
+Proof.
+  intros Hl Hu Dw Dp Dend Dflow u0 u1 r HG Hex.
+  apply (excess_flow_safe G f D Dw Dp Dend Dflow u0 u1 r HG).
+  pose proof (inexact_excess_le G lb ub f (u0 :: u1 :: r) Hl Hu). lia.
+Qed.
+
 (* ------------------------------------------------------------------ fixing sequences to layers (C05) *)
 Section Fix.
   Variable route : Type.
